@@ -102,8 +102,7 @@ func (db *DB) Follow(f *common.Follow, cb func([]byte, wal.Offset) error) {
 }
 
 type tableSpec struct {
-	where                goexpr.Expr
-	whereString          string
+	t                    *table
 	followersByPartition map[int]map[common.FollowerID]*followSpec
 }
 
@@ -151,14 +150,8 @@ func (db *DB) processFollowers(stop <-chan interface{}) {
 						db.log.Errorf("Table %v requested by %v not found, not including from WAL", t.Name, f.FollowerID)
 						continue
 					}
-					where := tb.Where
-					whereString := ""
-					if where != nil {
-						whereString = strings.ToLower(where.String())
-					}
 					table = &tableSpec{
-						where:                where,
-						whereString:          whereString,
+						t:                    tb,
 						followersByPartition: make(map[int]map[common.FollowerID]*followSpec),
 					}
 					ps.tables[t.Name] = table
@@ -229,8 +222,7 @@ func (db *DB) processFollowers(stop <-chan interface{}) {
 					partitionsCopy[partitionKey] = partitionCopy
 					for tableName, table := range partition.tables {
 						tableCopy := &tableSpec{
-							where:                table.where,
-							whereString:          table.whereString,
+							t:                    table.t,
 							followersByPartition: make(map[int]map[common.FollowerID]*followSpec, len(table.followersByPartition)),
 						}
 						partitionCopy.tables[tableName] = tableCopy
@@ -494,7 +486,7 @@ func (db *DB) mapPartitionRequest(h hash.Hash32, req *partitionRequest, mapped c
 	_dims, _ := encoding.Read(remain, dimsLen)
 	dims := bytemap.ByteMap(_dims)
 
-	whereResults := make(map[string]bool, 50)
+	whereResults := make(map[goexpr.Expr]bool, 50)
 
 	for partitionKeys, partition := range partitions {
 		pid := db.partitionFor(h, dims, partition.keys)
@@ -505,13 +497,16 @@ func (db *DB) mapPartitionRequest(h hash.Hash32, req *partitionRequest, mapped c
 			if len(specs) == 0 {
 				continue
 			}
-			wherePassed, found := whereResults[table.whereString]
+			// Use the table's current WHERE, it may have changed since the
+			// followers joined
+			where := table.t.getWhere()
+			wherePassed, found := whereResults[where]
 			if !found {
-				wherePassed = table.where == nil || table.where.Eval(dims).(bool)
+				wherePassed = where == nil || where.Eval(dims).(bool)
 				if db.log.IsTraceEnabled() {
-					db.log.Tracef("Evaluated where %v with result %v on %v", table.where, wherePassed, dims.AsMap())
+					db.log.Tracef("Evaluated where %v with result %v on %v", where, wherePassed, dims.AsMap())
 				}
-				whereResults[table.whereString] = wherePassed
+				whereResults[where] = wherePassed
 			}
 			pr.wherePassed[tableName] = wherePassed
 		}
